@@ -23,6 +23,7 @@ package unary
 //@   requires ctx != nil && u != nil && u.next != nil && (forall j in 0..len(u.workers) :: u.workers[j] != nil)
 //@   requires series-loaded-once: u.once != 0 ==> forall j in 0..len(u.workers) :: u.workers[j].started
 //@   panics may
+//@   ensures[C15] child-error-surfaces: ncalls("model.VectorOperator.Next") >= 1 && callres("model.VectorOperator.Next", 1, 1) != nil ==> result1 != nil
 //@   ensures[C18] error-means-no-batch: result1 != nil ==> isnil(result0)
 //@   ensures[C06,C07,C18] one-output-vector-per-input-vector: result1 == nil && !isnil(result0) ==> sameslice(result0, callres("model.VectorOperator.Next", 1, 0))
 //@   at line "for i, vector := range in {" assume sibling-lockstep-batch-fits: len(in) <= len(u.workers)
